@@ -1530,6 +1530,9 @@ def cells(tier, seed):
     # two constraints of the same kind on one parameter (register_constraint(..., replace=False)) intersect to the common interval
     for a, b in itertools.product([(0.1, 2.0), (0.5, 5.0), (1.0, 1.5)], repeat=2):
         out.append({"what": "intersect", "a": list(a), "b": list(b)})
+    # an assignment outside the SUPPORT of a registered prior: accepted or rejected, but a rejected assignment is not stored
+    for target, route, first in itertools.product(["rbf.lengthscale", "scale.outputscale", "mtlik.noise", "lik.noise"], ["initialize", "setter"], [1.0, 1.5]):
+        out.append({"what": "prior-support", "target": target, "route": route, "first": first})
     return out
 
 
@@ -1543,7 +1546,50 @@ def run_cell(cell, seed):
         return run_prior_density(cell, seed)
     if what == "intersect":
         return run_intersect(cell, seed)
+    if what == "prior-support":
+        return run_prior_support(cell, seed)
     return run_module_prior(cell, seed)
+
+
+def run_prior_support(cell, seed):
+    fails = []
+    feats = {"what": "prior-support", "target": cell["target"], "route": cell["route"]}
+    pr = GP.UniformPrior(0.5, 2.0)
+    mod, name = {"rbf.lengthscale": (lambda: GK.RBFKernel(lengthscale_prior=pr), "lengthscale"),
+                 "scale.outputscale": (lambda: GK.ScaleKernel(GK.RBFKernel(), outputscale_prior=pr), "outputscale"),
+                 "mtlik.noise": (lambda: GL.MultitaskGaussianLikelihood(num_tasks=2, noise_prior=pr), "noise"),
+                 "lik.noise": (lambda: GL.GaussianLikelihood(noise_prior=pr), "noise")}[cell["target"]]
+    m = mod()
+
+    def assign(v):
+        if cell["route"] == "initialize":
+            m.initialize(**{name: v})
+        else:
+            setattr(m, name, v)
+
+    def read():
+        return float(getattr(m, name).detach().reshape(-1)[0])
+    try:
+        assign(cell["first"])
+        if abs(read() - cell["first"]) > 1e-9:
+            fails.append({"sub": "prior-support", "symptom": f"in-support assignment {cell['first']} reads back {read()}", "detail": "", "features": feats})
+        for bad in (5.0, 0.01):
+            before = read()
+            try:
+                assign(bad)
+                rejected = False
+            except (ValueError, RuntimeError):
+                rejected = True
+            after = read()
+            want = before if rejected else bad
+            if abs(after - want) > 1e-9:
+                fails.append({"sub": "prior-support", "symptom": f"assignment of {bad} (outside the prior's support) was {'rejected' if rejected else 'accepted'} "
+                              f"but the parameter reads back {after:.6g} (before: {before:.6g})", "detail": "", "features": feats})
+            if not rejected:
+                assign(cell["first"])
+    except Exception as e:
+        fails.append({"sub": "prior-support", "symptom": util.exc_str(e), "detail": "", "features": feats})
+    return {"fails": fails, "sig": "prior-support", "features": feats, "ops": 3}
 
 
 def run_intersect(cell, seed):
